@@ -2,7 +2,7 @@
    Only statements; proofs are in Proofs/Cost.v.  The models (Model/Cost.v) log every modelled
    allocation: Make sz rem = make([]T, k) of sz bytes requested when rem input bytes were left,
    Grow sz = growth of a buffer driven by bytes that actually arrived (io.ReadAll, append). *)
-From WI Require Import Lib.Base Lib.Info Model.Base64 Model.Cost Proofs.Cost.
+From WI Require Import Lib.Base Lib.Info Model.Base64 Model.Cost Model.CostPgp Proofs.Cost Proofs.CostPgp.
 Open Scope N_scope.
 
 (* ---- at most the first 128 MB of any input are read, also of an endless one ---- *)
@@ -99,9 +99,20 @@ Print Assumptions C08_alloc_linear_base64.
        cost_of (inspect_cost lib name data) <= K * length data + C
    Proved here for every modelled component of the repository's own code, with K = 520 and
    C = 8194 yielded by the proofs, together with "no request trusts a length field".
-   Missing for the full statement: the interiors of the library oracles (crypto/x509,
-   encoding/json, encoding/pem, x/crypto/ssh, putty-go) and the typed OpenPGP packet parsers
-   and armor reader, whose allocation is measured per case against 1024*n + 1 MiB, not proved. *)
+   The typed OpenPGP packet parsers and ReadEntity are covered by the four theorems above
+   (C08_alloc_linear_pgp_typed / _entity: 1200 n + 650000; C08_lengths_not_trusted_pgp_typed /
+   _entity: backed or at most 65547).
+   Still missing for the full statement: (a) the armor reader: it is modelled (armor_decode: line
+   reader over the 100-octet bufio buffer, header map, base64 body, CRC-24) and tied to the
+   implementation by exact functional comparison and by the two-sided comparison of its cost
+   account with the measured allocation on every case, but its linear bound is not proved yet
+   (Proofs/CostPgp.v has the lemmas about its line reader and value buffer); (b) library
+   interiors: crypto/x509, encoding/asn1 below ParseRaw, encoding/json, encoding/pem,
+   encoding/base64's stream decoder, x/crypto/ssh, putty-go, jks-go, go-rpm past the guard,
+   math/big and the signature verification (crypto/rsa, crypto/dsa, crypto/ecdsa, ed25519),
+   compress/flate: measured per case against 1024*n + 1 MiB and the growth clause, not modelled;
+   (c) the packet types the entity reader ignores (encrypted session keys, one-pass signatures,
+   compressed, encrypted and literal data) and elliptic-curve key material (elliptic.Unmarshal). *)
 Theorem C08_alloc_linear_partial : forall comp data aux l,
   bytes_ok data = true -> in_repo comp = true -> component_log comp data aux = Some l ->
   log_cost l <= 520 * lenN data + 8194 /\
@@ -117,6 +128,48 @@ Example C08_alloc_linear_nonvacuous :
   bytes_ok data = true /\ in_repo (bs "ssh1") = true /\
   exists l, component_log (bs "ssh1") data [] = Some l /\ log_cost l = 55 /\ is_ok (fst (ssh1_parse data [])) = true.
 Proof. exact alloc_linear_example. Qed.
+
+(* ---- the typed OpenPGP packet parsers (packet.Read / Reader.Next over public keys v3 and v4,
+   private keys, signatures v3 and v4 with both subpacket areas and an embedded signature, user IDs,
+   user attributes; unknown tags skipped) and openpgp.ReadEntity (addUserID, addSubkey, the
+   accumulation of identities, signatures, subkeys, revocations), Model/CostPgp.v.  The readers the
+   parsers read through (spanReader, partialLengthReader, the bufio.Reader of peekVersion) are
+   modelled call by call.  Parameters of the statements: whether RIPEMD-160 is linked in, the primary
+   KeyId and the results of the signature verifications (library calls). ---- *)
+
+(* every allocation made from a length or count field is backed by the octets still in reach of the
+   reader, or is at most 65547 octets (the hashed and unhashed subpacket areas are sized from a
+   16-bit field before they are read) *)
+Theorem C08_lengths_not_trusted_pgp_typed : forall o data sz rem,
+  bytes_ok data = true -> In (Make sz rem) (snd (pgp_typed_all o data)) -> sz <= rem \/ sz <= 65547.
+Proof. intros o data sz rem B H. destruct (pgp_typed_all_spec o data B) as [_ O]. exact (okc_in _ _ _ _ O H). Qed.
+Print Assumptions C08_lengths_not_trusted_pgp_typed.
+
+Theorem C08_lengths_not_trusted_pgp_entity : forall o kid ov data sz rem,
+  bytes_ok data = true -> In (Make sz rem) (snd (pgp_read_entity o kid ov data)) -> sz <= rem \/ sz <= 65547.
+Proof. intros o kid ov data sz rem B H. destruct (pgp_read_entity_spec o kid ov data B) as [_ O]. exact (okc_in _ _ _ _ O H). Qed.
+Print Assumptions C08_lengths_not_trusted_pgp_entity.
+
+(* modelled allocation is linear in the input; constants from the proofs (the 4 KiB bufio.Reader of
+   peekVersion per signature or key packet and the 1 KiB buffer of consumeAll per skipped packet
+   set the rate) *)
+Theorem C08_alloc_linear_pgp_typed : forall o data, bytes_ok data = true ->
+  cost_of (pgp_typed_all o data) <= 1200 * lenN data + 320000.
+Proof. intros o data B. destruct (pgp_typed_all_spec o data B) as [H _]. exact H. Qed.
+Print Assumptions C08_alloc_linear_pgp_typed.
+
+Theorem C08_alloc_linear_pgp_entity : forall o kid ov data, bytes_ok data = true ->
+  cost_of (pgp_read_entity o kid ov data) <= 1200 * lenN data + 650000.
+Proof. intros o kid ov data B. destruct (pgp_read_entity_spec o kid ov data B) as [H _]. exact H. Qed.
+Print Assumptions C08_alloc_linear_pgp_entity.
+
+Example C08_pgp_typed_nonvacuous :
+  (* a user ID packet "ab" and a marker packet: one typed packet, the unknown tag skipped, cost of the
+     two io.ReadAll buffers, the string and the consumeAll buffer *)
+  let data := [205; 2; 97; 98; 202; 1; 80] in
+  bytes_ok data = true /\ fst (pgp_typed_all false data) = ([TUid [97; 98]], TEnd) /\
+  cost_of (pgp_typed_all false data) = 1622.
+Proof. vm_compute. repeat split; reflexivity. Qed.
 
 (* ---- recursion depth of the ASN.1 dump: at most half the input length and at most the
    nesting limit maxDepth of the repaired ParseRaw (regenerated constant) (stack bound) ---- *)
